@@ -58,7 +58,18 @@ fn check_elem<B: Backend>(r: &Recipe, ctx: &mut Ctx) -> Result<(), Failure> {
 /// every decoding entry point of the configuration that accepts `arr`, with the re-encoding of what it returned
 fn reencodings(is_ark: bool, arr: &[u8; 32]) -> Vec<(&'static str, [u8; 32])> {
     if is_ark {
-        crate::props::c02::ark_entry_points(arr).into_iter().filter_map(|(n, r)| r.ok().map(|e| (n, e.vartime_compress().0))).collect()
+        use ark_serialize::CanonicalDeserialize;
+        let mut v: Vec<(&'static str, [u8; 32])> = crate::props::c02::ark_entry_points(arr).into_iter().filter_map(|(n, r)| r.ok().map(|e| (n, e.vartime_compress().0))).collect();
+        // readers that deliver the 32 bytes in pieces (a chain of slices, a small buffer)
+        for (name, chunk) in [("ark:Element::deserialize_compressed(1-byte reads)", 1usize), ("ark:Element::deserialize_compressed(31-byte reads)", 31)] {
+            if let Ok(e) = crate::api::ark::Element::deserialize_compressed(crate::props::c02::Frag { data: &arr[..], chunk }) {
+                v.push((name, e.vartime_compress().0));
+            }
+        }
+        if let Ok(e) = crate::api::ark::Element::deserialize_compressed(std::io::Read::chain(&arr[..1], &arr[1..])) {
+            v.push(("ark:Element::deserialize_compressed(chained slices)", e.vartime_compress().0));
+        }
+        v
     } else {
         crate::props::c02::min_entry_points(arr).into_iter().filter_map(|(n, r)| r.ok().map(|e| (n, e.vartime_compress().0))).collect()
     }
